@@ -439,3 +439,73 @@ Definition C07_layout_parses_full : Prop := forall keepc w e,
   wf e = true -> lam_ok e = true -> cr_free e = true -> strings_ok FX_ALL e = true ->
   let O := printer_oracles FX_ALL (policy_new fixed_opinfo) num_text keepc in
   PegToItems.parse_text (render (fmtd O w e 0)) = ("E " ++ Emit.show_expr e)%string.
+
+(* ================================================================ the character level, first step: ATOMS
+   The PEG model of the REGENERATED grammar (coq/Peg.v on gen/Grammar.v, tied to pest's generated parser pair-for-pair
+   by the PEG streams of C10) run on the text of an atom yields exactly the pair of that atom with the full span:
+     - a string literal as Printer.quote_string (repaired quoting) writes it — either quote style — in front of ANY
+       continuation [after]: string[p, p+|s|+2] ( string_value[p+1, p+1+|s|] ), for byte strings made of UTF-8-shaped
+       chunks (every valid UTF-8 string is; for others pest's ANY could step over the closing quote);
+     - an identifier (valid name, not a reserved word); `true`, `false`, `null`;
+     - a number text in the language of the rule `number` (which texts the printers emit is C16's subject).
+   This discharges, for atoms, the `lexes` hypothesis of C07_roundtrip_relative_to_lexer. *)
+Require Blots.Peg Blots.gen.Grammar Blots.proofs.PegString Blots.proofs.PegNumber Blots.proofs.PegAtoms
+        Blots.C10Ident Blots.gen.IdentRules.
+From Coq Require Import NArith.
+Module AtomLayer.
+Import Blots.Peg Blots.gen.Grammar Blots.proofs.PegString Blots.proofs.PegAtoms Blots.C10Ident Blots.gen.IdentRules.
+Local Open Scope string_scope.
+
+Theorem C07_atoms_relex :
+  (* strings *)
+  (forall s after fuel a (st0 : st grule),
+     Blots.Printer.string_relex_ok Blots.Printer.FX_ALL s = true -> chunks s ->
+     rest st0 = (Blots.Printer.quote_string Blots.Printer.FX_ALL s ++ after)%string -> stack_ok (stk st0) ->
+     12 + String.length (rest st0) <= fuel ->
+     call_with blots_grammar (run blots_grammar fuel) a false PG_string st0
+     = Ok (mkst (pos st0 + slen s + 2)%N after (stk st0)
+                (Node PG_string (pos st0) (pos st0 + slen s + 2)%N
+                      [Node PG_string_value (pos st0 + 1)%N (pos st0 + 1 + slen s)%N []] :: out st0))) /\
+  (* identifiers *)
+  (exists n, forall name fuel,
+     valid_name name = true -> is_reserved reserved_words name = false -> n + String.length name <= fuel ->
+     parse blots_grammar fuel PG_identifier name
+     = Ok (mkst (slen name) "" stack_new [Node PG_identifier 0 (slen name) []])) /\
+  (* true / false / null *)
+  (forall fuel, 40 <= fuel ->
+     parse blots_grammar fuel PG_bool "true" = Ok (mkst 4 "" stack_new [Node PG_bool 0 4 []]) /\
+     parse blots_grammar fuel PG_bool "false" = Ok (mkst 5 "" stack_new [Node PG_bool 0 5 []]) /\
+     parse blots_grammar fuel PG_null "null" = Ok (mkst 4 "" stack_new [Node PG_null 0 4 []])) /\
+  (* numbers *)
+  (exists n, forall t fuel,
+     Blots.gen.NumGrammar.gen_number t = Some "" -> n + String.length t <= fuel ->
+     parse blots_grammar fuel PG_number t = Ok (mkst (slen t) "" stack_new [Node PG_number 0 (slen t) []])).
+Proof.
+  exact (conj peg_quoted_string_relexes (conj peg_identifier_atom (conj peg_word_atoms peg_number_atom))).
+Qed.
+Check C07_atoms_relex :
+  (forall s after fuel a (st0 : st grule),
+     Blots.Printer.string_relex_ok Blots.Printer.FX_ALL s = true -> chunks s ->
+     rest st0 = (Blots.Printer.quote_string Blots.Printer.FX_ALL s ++ after)%string -> stack_ok (stk st0) ->
+     12 + String.length (rest st0) <= fuel ->
+     call_with blots_grammar (run blots_grammar fuel) a false PG_string st0
+     = Ok (mkst (pos st0 + slen s + 2)%N after (stk st0)
+                (Node PG_string (pos st0) (pos st0 + slen s + 2)%N
+                      [Node PG_string_value (pos st0 + 1)%N (pos st0 + 1 + slen s)%N []] :: out st0))) /\
+  (exists n, forall name fuel,
+     valid_name name = true -> is_reserved reserved_words name = false -> n + String.length name <= fuel ->
+     parse blots_grammar fuel PG_identifier name
+     = Ok (mkst (slen name) "" stack_new [Node PG_identifier 0 (slen name) []])) /\
+  (forall fuel, 40 <= fuel ->
+     parse blots_grammar fuel PG_bool "true" = Ok (mkst 4 "" stack_new [Node PG_bool 0 4 []]) /\
+     parse blots_grammar fuel PG_bool "false" = Ok (mkst 5 "" stack_new [Node PG_bool 0 5 []]) /\
+     parse blots_grammar fuel PG_null "null" = Ok (mkst 4 "" stack_new [Node PG_null 0 4 []])) /\
+  (exists n, forall t fuel,
+     Blots.gen.NumGrammar.gen_number t = Some "" -> n + String.length t <= fuel ->
+     parse blots_grammar fuel PG_number t = Ok (mkst (slen t) "" stack_new [Node PG_number 0 (slen t) []])).
+Print Assumptions C07_atoms_relex.
+
+(* every ASCII string (bytes < 0xC0 as lead bytes) is chunked; a two-byte character too *)
+Example C07_atoms_chunks_ascii : chunks "it's ""quoted""".
+Proof. apply ascii_chunks. vm_compute. reflexivity. Qed.
+End AtomLayer.
